@@ -13,8 +13,8 @@ import Tickit.Gen.EvLoop
   Callback behaviours are data in the state, so "whatever callbacks do" is part of the quantifier.
 
   Proved for the tree as shipped *and* repaired: `queue_order_invariant`, `sorted_insert`,
-  `never_early_shipped`/`never_early`, `cancel_exact`, `destroy_notifies_list`.
-  Proved for the repaired timer loop: `order`, `no_due_timer_left`, `cancelled_never_runs`,
+  `never_early_shipped`/`never_early`, `order_shipped`/`order`, `cancel_exact`, `destroy_notifies_list`.
+  Proved for the repaired timer loop: `no_due_timer_left`, `cancelled_never_runs`,
   `registered_in_callback_runs_in_order`.
   Defects of the shipped tree: the `*_counterexample` theorems (kernel-checked runs of the model on the
   minimal histories of corpus/C17; the same histories are replayed against the real library on
@@ -96,6 +96,12 @@ theorem never_early (fuel : Nat) (st : St) (now : TV) :
 theorem order (fuel : Nat) (st : St) (now : TV) (q : QInv st) :
     (timerLoopPopT fuel st now).2.Pairwise (fun x y => y.a ∈ st.timers → Fired.lt x y) :=
   (timerLoopPopT_trace fuel st now q).2.2
+
+/-- The loop as shipped (`this = t->timers` on entry): the timers one run invokes are strictly increasing
+    in (deadline, registration order), whatever the callbacks register or cancel. -/
+theorem order_shipped (fuel : Nat) (st : St) (now : TV) (q : QInv st) :
+    (timerLoopT fuel st now st.timers.head?).2.2.Pairwise Fired.lt :=
+  (timerLoopT_ordered fuel st now st.timers.head? q (fun b hb => List.mem_of_mem_head? hb)).1
 
 /-- A timer registered from inside a callback (a fresh address) is invoked in its place in the same
     order: every invoked timer was queued at the start or was allocated afterwards, … -/
@@ -215,12 +221,6 @@ theorem sigchld_next_cancelled_counterexample : (runOps .shipped probeSigchldNex
   decide +kernel
 
 /-! ### statements of the property that are not proved (engines.d/C17.json: open_statements) -/
-
-/-- The order clause for the loop as shipped (it holds on every explored history; proved for the
-    repaired loop only). -/
-def order_shipped_full : Prop :=
-  ∀ (fuel : Nat) (st : St) (now : TV) (this : Option Nat), QInv st →
-    (timerLoopT fuel st now this).2.2.Pairwise Fired.lt
 
 /-- Exactly once, end to end: in every history of valid usage under the repaired source, every timer
     and deferred callback that is registered and not cancelled is invoked exactly once (with
